@@ -4,7 +4,7 @@ from .common import *
 EXPLANATION = ("C12: each kernel pair (CNL wrapper expression, hand-written built-in expression) is compiled in the same "
                "TU and proved to have identical outcomes (value, or the same undefined behaviour) for every operand "
                "bit pattern; emitted is_same constants check the promoted result representation.")
-BOUNDS = {"quick": "wrappers {scaled<R,power<0>>, overflow<R,native>, rounding<R,native>, 3 nestings} x ops {+,-,*,/,%,&,|,^,<<,>>,6 comparisons,unary -,+,~,op=,++,--} x R in {i8,u8,i16,u16,i32,u32,i64,u64} (seeded half of the product) + documentation kernels; gcc view",
+BOUNDS = {"quick": "wrappers {scaled<R,power<0>>, overflow<R,native>, rounding<R,native>, 3 nestings} x ops {+,-,*,/,%,&,|,^,<<,>>,6 comparisons,unary -,+,~,op=,++,--} x R in {i8,u8,i16,u16,i32,u32,i64,u64} (full product) + documentation kernels; gcc view",
           "thorough": "full product incl. i128/u128 for non-multiplicative operators"}
 
 WRAPPERS = {
@@ -69,11 +69,17 @@ def kernels(opts):
                     {"same": "std::is_same_v<decltype(cnl::unwrap(%sstd::declval<{n}_T>())), decltype(%sstd::declval<{n}_R>())>" % (o, o)},
                     desc="%s<%s> unary %s" % (wn, R, o))
             # compound assignment  a op= b  ==  a = T(a op b)
-            for on, o in list(BINOPS.items())[:5]:
+            for on, o in BINOPS.items():
                 add("%s_c%s_%s" % (wn, on, R), [("a", R), ("b", R)], R,
                     "    auto x = cnl::wrap<{n}_T>(a);\n    x %s= cnl::wrap<{n}_T>(b);\n    return cnl::unwrap(x);" % o,
                     "    auto x = a;\n    x = static_cast<%s>(x %s b);\n    return x;" % (cpp(R), o),
                     desc="%s<%s> %s=" % (wn, R, o))
+            # compound shifts  a <<= n, a >>= n  ==  a = T(a << n)
+            for on, o in SHIFTS.items():
+                add("%s_c%s_%s" % (wn, on, R), [("a", R), ("b", "i32")], R,
+                    "    auto x = cnl::wrap<{n}_T>(a);\n    x %s= b;\n    return cnl::unwrap(x);" % o,
+                    "    auto x = a;\n    x = static_cast<%s>(x %s b);\n    return x;" % (cpp(R), o),
+                    desc="%s<%s> %s= int" % (wn, R, o))
             # ++ / --
             for on, o, bo in () if wn in ("rndnat", "rnd_ovf") else (("preinc", "++x", "+"), ("predec", "--x", "-"), ("postinc", "x++", "+"), ("postdec", "x--", "-")):
                 add("%s_%s_%s" % (wn, on, R), [("a", R)], R,
@@ -82,7 +88,7 @@ def kernels(opts):
                     desc="%s<%s> %s" % (wn, R, on))
     ks += doc_kernels()
     if tier == "quick":
-        keep = seeded_subset(range(len(ks)), 0.5, opts["seed"], "c12")
+        keep = seeded_subset(range(len(ks)), 1.0, opts["seed"], "c12")
         keep = set(keep)
         ks = [k for i, k in enumerate(ks) if i in keep or k.tags.get("doc")]
     return ks
